@@ -438,6 +438,10 @@ func (mpt *MerklePatriciaTrie) delete(key Key, prefix, path Path) (Node, Key, er
 		return nil, nil, err
 	}
 	if len(path) == 0 {
+		if ln, ok := node.(*LeafNode); ok && len(ln.Path) > 0 {
+			// the leaf stores a longer path, the given path has no value
+			return nil, nil, ErrValueNotPresent
+		}
 		return mpt.deleteAfterPathTraversal(node)
 	}
 	return mpt.deleteAtNode(key, node, prefix, path)
